@@ -53,6 +53,32 @@ func (s *zzC09State) reg(pattern string, id int, applied []string, methods ...st
 	}
 }
 
+// unreg forgets a removed method; a pattern that lost its last method loses its OPTIONS/405 too.
+func (s *zzC09State) unreg(pattern, method string) {
+	var keep []zzReg
+	left := false
+	for _, r := range s.regs {
+		if r.pattern == pattern && r.method == method {
+			continue
+		}
+		if r.pattern == pattern {
+			left = true
+		}
+		keep = append(keep, r)
+	}
+	s.regs = keep
+	if !left {
+		delete(s.first, pattern)
+		var order []string
+		for _, p := range s.order {
+			if p != pattern {
+				order = append(order, p)
+			}
+		}
+		s.order = order
+	}
+}
+
 func (s *zzC09State) has(pattern, method string) bool {
 	for _, r := range s.regs {
 		if r.pattern == pattern && r.method == method {
@@ -160,6 +186,9 @@ func zzC09Step(r *Router[*hnd], s *zzC09State, op, i int) bool {
 		s.reg("/s/1/x", 10+i, []string{"C" + n + "a", "C" + n + "b", "P" + n}, "GET")
 		p2.Get("/y", &hnd{id: 30 + i})
 		s.reg("/t/2/y", 30+i, []string{"C" + n + "a", "C" + n + "b", "Q" + n}, "GET")
+	case 10: // (setup only) a route below /a, so that the node of /a outlives the removal of its methods
+		r.Handle("/a/b", &hnd{id: 10 + i}, zzCMWs("B"+n), "GET")
+		s.reg("/a/b", 10+i, []string{"B" + n}, "GET")
 	case 8:
 		if s.has("/a", "GET") || s.has("/a", "POST") || s.has("/a", "DELETE") {
 			return false
@@ -227,9 +256,13 @@ func (x zzRouterServe) ServeHTTP(w *recW, method, path string) *zzObs {
 	return o
 }
 
-// ZZC09(n): n = trace*100 + program length. Every program over 9 operations.
+// ZZC09(n): n = setup*1000 + trace*100 + program length. Every program over 10 operations.
+// setup 1: the programs start on a table where /a was registered, got a route below it, and
+// then lost its methods by name (its node is still in the tree, without handlers).
 func ZZC09(n int) {
 	zzMWCalls = map[string]int{}
+	setup := n / 1000
+	n %= 1000
 	trace := n/100 == 1
 	var r *Router[*hnd]
 	if trace {
@@ -238,6 +271,12 @@ func ZZC09(n int) {
 		r = zzNewRouter("rt")
 	}
 	s := &zzC09State{router: "rt", first: map[string][]string{}}
+	if setup == 1 {
+		zzC09Step(r, s, 2, 7)
+		zzC09Step(r, s, 10, 8)
+		r.Remove("/a", "GET")
+		s.unreg("/a", "GET")
+	}
 	for i := 0; i < n%100; i++ {
 		if !zzC09Step(r, s, zzv.Choice("op", 10), i) {
 			zzv.Assume(false)
@@ -249,6 +288,9 @@ func ZZC09(n int) {
 	}
 	cnt := &zzCounted{seen: map[string]int{}}
 	zzC09Check(zzRouterServe{r}, s, trace, true, cnt)
+	if setup != 0 {
+		return // (handlers removed by the setup were wrapped too)
+	}
 	// every factory ran exactly once per handler it wraps
 	for tag, c := range zzMWCalls {
 		zzv.Assert(cnt.seen[tag] == c, "factory-invocations-differ-from-wrapped-handlers")
